@@ -211,6 +211,9 @@ class EditRun:
             for i, n in enumerate(chain):
                 if isinstance(n, ast.arguments) and i > 0 and isinstance(chain[i - 1], ast.Lambda):
                     flags.add('in_lambda_args')
+                if isinstance(n, (ast.With, ast.AsyncWith)) and len(n.items) == 1 and isinstance(n.items[0].context_expr, ast.Tuple) \
+                        and n.items[0].optional_vars is None and i + 1 < len(chain) and chain[i + 1] is n.items[0]:
+                    flags.add('in_with_single_tuple_item')  # family of C01-K18 ('with (x, y):' parses as two items)
                 if isinstance(n, ast.pattern):
                     flags.add('in_pattern')
                 if isinstance(n, (ast.JoinedStr,)):
